@@ -7,7 +7,9 @@
   handler <n> <out>                  : the same through the real TwoCompositeObjectSummedBoundingPotentialEventHandler
                                        (scripted pair derivatives, 2+2 and 3+3 point masses, every point mass active)
 """
+import contextlib
 import json
+import os
 import random
 import sys
 
@@ -288,8 +290,26 @@ def handler(count, out):
                 branches.append(root)
             return branches
 
-        handlers = {s: Handler(potential=pot, bounding_potential=Bound(), lifting=c(), charge="q")
+        handlers = {(s, "summed"): Handler(potential=pot, bounding_potential=Bound(), lifting=c(), charge="q")
                     for s, c in (("inside", InsideFirstLifting), ("outside", OutsideFirstLifting), ("ratio", RatioLifting))}
+        # the same table is filled by the composite-object cell-veto handler when a cell-veto event is confirmed
+        from jellyfysh.event_handler.composite_object_cell_veto_event_handler import CompositeObjectCellVetoEventHandler
+        from jellyfysh.activator.internal_state.cell_occupancy.cells.cuboid_periodic_cells import CuboidPeriodicCells
+
+        class Est:
+            potential = pot
+
+            def derivative_bound(self, lower_corner, upper_corner, direction, calculate_lower_bound=False):
+                return (1000.0, -1000.0) if calculate_lower_bound else 1000.0
+
+            def charge_correction_factor(self, *charges):
+                return 1.0
+        cells = CuboidPeriodicCells(cells_per_side=[4, 4, 4], neighbor_layers=1)
+        with open(os.devnull, "w") as devnull, contextlib.redirect_stdout(devnull):
+            for sname, c in (("inside", InsideFirstLifting), ("outside", OutsideFirstLifting), ("ratio", RatioLifting)):
+                hv = CompositeObjectCellVetoEventHandler(estimator=Est(), lifting=c(), charge="q")
+                hv.initialize(cells, 1)
+                handlers[(sname, "cell-veto")] = hv
         real_exp = random.expovariate
         random.uniform, random.expovariate = draws, (lambda beta: 1.0)
         try:
@@ -299,16 +319,25 @@ def handler(count, out):
                 t = [sum(M[i]) for i in range(size)] + [-sum(M[i][j] for i in range(size)) for j in range(size)]
                 if not any(x > 0 for x in t):
                     continue
-                for scheme, h in handlers.items():
+                for (scheme, hkind), h in handlers.items():
+                    if hkind == "cell-veto" and (mats.index(flat) % 3):
+                        continue                                      # every third matrix through the cell-veto handler
                     sel, ends = [], []
                     for a, x in enumerate(t, start=1):
                         if x <= 0:
                             continue
 
                         def select(plan):
-                            draws.set(("lo", 1), *plan)           # first draw: the confirmation (lower end: confirmed)
-                            h.send_event_time(in_state(units[a - 1]))
-                            outs = h.send_out_state()
+                            branches = in_state(units[a - 1])
+                            if hkind == "summed":
+                                draws.set(("lo", 1), *plan)       # first draw: the confirmation (lower end: confirmed)
+                                h.send_event_time(branches)
+                                outs = h.send_out_state()
+                            else:
+                                draws.set(("lo", 1), ("lo", 1), *plan)      # Walker's second draw, then the confirmation
+                                m = units[a - 1][0]
+                                h.send_event_time([branches[m]])
+                                outs = h.send_out_state(branches[1 - m])
                             moving = [c.value.identifier for r in outs for c in r.children if c.value.velocity is not None]
                             assert len(moving) == 1, moving
                             return units.index(moving[0]) + 1
@@ -317,8 +346,8 @@ def handler(count, out):
                         n += len(got) + 2
                         sel.append([a, got])
                         ends.append([a, select(lo), select(hi)])
-                    fh.write(json.dumps(dict(scheme=scheme, who="composite-object handler, %d+%d point masses, pair "
-                                             "derivatives %s" % (size, size, M), t=t, sel=sel, ends=ends)) + "\n")
+                    fh.write(json.dumps(dict(scheme=scheme, who="composite-object %s handler, %d+%d point masses, pair "
+                                             "derivatives %s" % (hkind, size, size, M), t=t, sel=sel, ends=ends)) + "\n")
         finally:
             random.uniform, random.expovariate = _real_uniform, real_exp
             setting.reset()
